@@ -42,6 +42,33 @@ CLAIMED = {
             'DESIGN.md 4/C18',
             'LessThan / limiter flag semantics from C09; specs transcribed from docstrings; parameter preconditions listed',
             'contract-based deductive verification: block equations => transfer function, SMT (z3 QF_NRA)'),
+    'C04': ('proof',
+            'Trapezoid/BackEuler.calc_q are proved to be the pointwise rule residual, calc_jac the block Jacobian of '
+            '(q, g) w.r.t. (x, y); ImplicitIter.step: loop invariant (x0,y0,f0 hold the entry values), failure => x,y,f '
+            'restored, success => last correction <= tol and no NaN (chatter acceptance is a listed known finding), the '
+            'vector handed to the solver is the rule residual; TDS.calc_h: 0 <= h, never past tf / next switch time / '
+            'fixed step; TDS.run loop invariant. Partial: error order and reaching tf (liveness) are not decided.',
+            'DESIGN.md 4/C04', 'callee contracts of fg_update/j_update/solver assumed; anti-windup loop summarised; reals',
+            'contract-based deductive verification: symbolic execution of the real function bodies + SMT'),
+    'C06': ('proof',
+            'TDS.do_switch dispatches iff t equals the next switch time, exactly once, index +1; TDS.calc_h never steps '
+            'past the next switch time or tf; TDS.run loop invariant (t <= next switch time, index in range, step-size '
+            'state); the skip of an event scheduled at the current time is a listed known finding (F10).',
+            'DESIGN.md 4/C06', 'time arithmetic over the reals (FP landing lemma separate); switch_times strictly increasing '
+            'is a representation invariant (store_switch_times)',
+            'contract-based deductive verification: symbolic execution with loop invariants + SMT'),
+    'C14': ('proof',
+            'Narrow: hand-over lemma post(run_1) => pre(run_2) on the resume branch, init_resume frame, calc_h(resume) '
+            'contract. Trajectory equality and snapshots are not decided.',
+            'DESIGN.md 4/C14', 'see evidence assumptions',
+            'contract-based deductive verification: pre/post composition lemma + SMT'),
+    'C17': ('proof',
+            'PFlow.nr_step returns the NaN-propagating infinity norm of the assembled residual; nr_solve/run: success => '
+            'tested mismatch < tol and not NaN, exit code mirrors the flag, no IndexError on early failure; '
+            'ImplicitIter.step and TDS.run: success flags imply their tests on every path; power-flow gate of TDS.run. '
+            'Known findings: chatter acceptance (F9), run() True after failed init test (F18).',
+            'DESIGN.md 4/C17', 'callee contracts assumed as listed in evidence; reals with explicit NaN flags',
+            'contract-based deductive verification: path-wise postconditions by symbolic execution + SMT'),
 }
 
 ALL = ['C%02d' % i for i in range(1, 21)]
